@@ -428,3 +428,8 @@ for _p, _wls in (("C14", ["C14", "C14-random"]), ("C02", ["C02-cli", "C02-accept
     for _w in _wls:
         PLANS[_p]["stages"].append({"variant": "rel", "workload": _w, "args_quick": ["--scale", "0.25"], "args_thorough": ["--scale", "0.25"]})
     PLANS[_p]["rule"] += " Release-profile stage: a quarter of the through-the-Cli workloads again in a build without debug assertions and overflow checks."
+
+# generated declarations also on the release profile (the generated parsers / help printers without debug assertions)
+for _p in ("C09", "C12"):
+    PLANS[_p]["stages"].append({"custom": "declbatch", "profile": "rel", "batches_quick": [1, 24, 0], "batches_thorough": [4, 60, 0]})
+    PLANS[_p]["rule"] += " One batch of 24 (quick) / four of 60 (thorough) declarations is also compiled and run on a release profile (no debug assertions, wrapping arithmetic)."
